@@ -209,6 +209,8 @@ type pLifecycle struct {
 	storeAtStop   []string
 	storeAtImport []string
 	yield         bool
+	live          map[string]string // processor id -> configuration the running node was built from (nil: not modelled)
+	lastOK        map[string]bool   // processor id -> did the last ReconfigureProcessor call for it succeed
 }
 
 func (l *pLifecycle) Start(_ context.Context, id string) error {
@@ -245,13 +247,30 @@ func (l *pLifecycle) ReconfigureProcessor(_ context.Context, _ string, procID st
 	if l.faulty {
 		l.reconfErr = verifConcrete(verifChoice("reconf", 3))
 	}
+	if l.live != nil {
+		l.lastOK[procID] = l.reconfErr == 0
+	}
 	switch l.reconfErr {
 	case 1:
 		return lifecycle.ErrProcessorNotLiveReconfigurable
 	case 2:
 		return cerrors.New("verif: reconfigure failed")
 	}
+	if l.live != nil {
+		// like the real ReconfigureProcessor: the running node is rebuilt from
+		// the configuration stored at this instant
+		l.live[procID] = l.w.procStored(procID)
+	}
 	return nil
+}
+
+// procStored renders the stored configuration of one processor.
+func (w *pWorld) procStored(id string) string {
+	in, err := w.procs.Get(context.Background(), id)
+	if err != nil {
+		return "<none>"
+	}
+	return in.Plugin + " k=" + in.Config.Settings["k"] + " w=" + strconv.Itoa(in.Config.Workers) + " cond=" + in.Condition
 }
 
 type pWorld struct {
@@ -279,6 +298,11 @@ func newPWorld() *pWorld {
 
 func pProc(id string, v int) config.Processor {
 	p := config.Processor{ID: id, Plugin: "proc", Settings: map[string]string{"k": "v" + strconv.Itoa(v)}, Workers: 1 + v}
+	if verifParam("wFixed", 0) == 1 {
+		// only the settings vary: updates of this processor are live-swappable
+		p.Workers = 1
+		return p
+	}
 	if v == 1 && (id == "x" || id == "b") {
 		// only some processors carry a condition, so that others see pure updates
 		p.Condition = "cond"
